@@ -518,6 +518,23 @@ fn command_family(tier: Tier, which: u64, ctx: &mut Ctx) {
 	for l in [None, Some((0usize, 2usize)), Some((1, 4)), Some((n - 2, n))] {
 		cmds.push(Cmd::Loop(l));
 	}
+	// same-interval pairs: set_loop_region(l) then seek_to(t) between the same two callbacks - the seek is
+	// judged against the region that was requested before it (both the order of issue and kira's fixed
+	// reading order apply the region first)
+	for at in 0..=6usize {
+		for l in [None, Some((0usize, 2usize)), Some((1, 4)), Some((n - 2, n))] {
+			for t in 0..=n + 1 {
+				let sc = Scene { len, slice, start: 0, lp, reverse, rate: 1.0, pair: (1, 1), chunk };
+				ctx.evals += 1;
+				ctx.traces += 1;
+				let (c1, second) = (Cmd::Loop(l), Some((at, Cmd::SeekTo(t))));
+				let r = catch(|| run_commands(&sc, at, c1, second, ctx));
+				if let Err(p) = r {
+					ctx.fail(format!("panic: {} :: command pair set_loop_region+seek_to", p), format!("{} cmd {:?} at callback {} second {:?}", sc.desc(), c1, at, second));
+				}
+			}
+		}
+	}
 	let depth2 = tier == Tier::Thorough;
 	for at in 0..=6usize {
 		for &c1 in &cmds {
@@ -642,9 +659,13 @@ fn run_commands(sc: &Scene, at: usize, c1: Cmd, second: Option<(usize, Cmd)>, ct
 		ctx.transitions += 1;
 	}
 	ctx.state(hash64(&(format!("{:?}", c1), at, sc.reverse, sc.lp)));
-	if second.is_some() {
-		return; // pairs: safety only (no panic, nothing outside the slice, only source frames)
-	}
+	// pairs: safety only (no panic, nothing outside the slice, only source frames) - except a region change
+	// followed by a seek_to in the same interval, whose landing point the statement fixes
+	let c1 = match (c1, second) {
+		(_, None) => c1,
+		(Cmd::Loop(_), Some((at2, c2 @ Cmd::SeekTo(_)))) if at2 == at => c2,
+		_ => return,
+	};
 	let dir: i64 = if sc.reverse { -1 } else { 1 };
 	let j0 = cmd_frame + 3;
 	match c1 {
